@@ -71,8 +71,11 @@ func (l *leader) onChangeConfig(t changeConfig) {
 		return
 	}
 
+	index := l.configs.Latest.Index
 	l.checkConfigActions(t.task, t.newConf)
-	if l.configs.IsCommitted() {
+	// note: config stored for an action might have been committed already,
+	// if we are the only voter. so check the index rather than IsCommitted
+	if l.configs.Latest.Index == index {
 		if trace {
 			println(l, "no configActions changed")
 		}
@@ -110,6 +113,8 @@ func (l *leader) beginFinishedRounds() {
 //   or first entry of leader's term is committed
 // - from leader.onTransferTimeout
 func (l *leader) checkConfigActions(t *task, config Config) {
+	index := l.configs.Latest.Index
+
 	// do actions on self if any
 	n := config.Nodes[l.nid]
 	if l.canChangeConfig() && n.Action != None {
@@ -137,6 +142,11 @@ func (l *leader) checkConfigActions(t *task, config Config) {
 	}
 
 	for _, repl := range l.repls {
+		if l.configs.Latest.Index != index {
+			// an action is started, which makes given config stale. remaining
+			// actions are taken up, when the config of that action is committed
+			break
+		}
 		l.checkConfigAction(t, config, &repl.status)
 	}
 }
